@@ -99,7 +99,7 @@ def draw_site_workload(ctx):
             v['skew'] = rng.choice([None, 0.2, 0.5, 1.0, 2.0, 5.0, 50.0, 3.3, 0.0001, 0.003, 5000.0, 100000.0])
             v['numinst'] = 1
             if rng.random() < 0.25:
-                txt, val = rng.choice([('1e3', 1000.0), ('2.5e1', 25.0), ('5e-2', 0.05), ('1E2', 100.0), ('1e-05', 1e-05), ('3.0e0', 3.0), ('1000000000000000000', 1e18), ('7', 7.0)])
+                txt, val = rng.choice([('1e3', 1000.0), ('2.5e1', 25.0), ('5e-2', 0.05), ('1E2', 100.0), ('1e-05', 1e-05), ('3.0e0', 3.0), ('1000000000000000000', 1e18), ('9000000000000000000', 9e18), ('7', 7.0)])
                 v['skew'], v['skew_text'] = val, txt
                 ctx.cov('skew_in_exponent_notation')
             outdir = ge.fresh_outdir(ctx.workdir, 'c17')
@@ -108,9 +108,10 @@ def draw_site_workload(ctx):
             res = ge.run_generator(argv, rng.randint(0, 10 ** 6))
             recs = CHOICE.stop()
             ctx.cnt('generator_runs_with_draw_site_tap')
-            if res['exit'] is not None or res['exc'] is not None:
-                ctx.cnt('draw_site_unobservable_generator_failed')
-                continue
+            failed = res['exit'] is not None or res['exc'] is not None
+            if failed:
+                # the vectors recorded before the failure are still judged: the tap sees them on the way in
+                ctx.cnt('draw_site_runs_in_which_the_generator_failed')
             s = 1.0 if v['skew'] is None else v['skew']
             case = {'draw_site': True, 'sequence': q, 'step': step, 'argv': [a if a != outdir else '<outdir>' for a in argv]}
             for w in recs:
@@ -121,7 +122,7 @@ def draw_site_workload(ctx):
                                  'agents, skew %r): the weights handed to the draw are wrong: %s (weights %s)' % (
                                      step + 1, mp, n2, s, bad, [round(x, 5) for x in w[:6]])}, case)
                     break
-            if step > 0:
+            if step > 0 and not failed:
                 ctx.nontrivial('seq/%d/%d/%d/%r' % (ctx.shard, q, step, s))
     lc.harvest_contracts(ctx, {})
 
